@@ -1,0 +1,36 @@
+//go:build verif
+
+package gortsplib
+
+import (
+	"bufio"
+	"context"
+	"io"
+	"net"
+
+	"github.com/bluenviron/gortsplib/v5/internal/base64streamreader"
+	"github.com/bluenviron/gortsplib/v5/pkg/base"
+)
+
+// Verification hooks (build tag verif only): they expose unexported constructors of the byte
+// carriers of a RTSP connection to the /verif correspondence harness. No behavior is changed.
+
+// VerifBase64StreamReader exposes internal/base64streamreader.New.
+func VerifBase64StreamReader(r io.Reader) io.Reader {
+	return base64streamreader.New(r)
+}
+
+// VerifServerHTTPTunnel exposes newServerHTTPTunnel.
+func VerifServerHTTPTunnel(r net.Conn, rb *bufio.Reader, w net.Conn) net.Conn {
+	return newServerHTTPTunnel(r, rb, w)
+}
+
+// VerifClientTunnelHTTP exposes newClientTunnelHTTP over plain TCP.
+func VerifClientTunnelHTTP(ctx context.Context, addr string, u *base.URL) (net.Conn, error) {
+	return newClientTunnelHTTP(ctx, addr, false, nil, (&net.Dialer{}).DialContext, nil, u)
+}
+
+// VerifClientTunnelWebSocket exposes newClientTunnelWebSocket over plain TCP.
+func VerifClientTunnelWebSocket(ctx context.Context, addr string) (net.Conn, error) {
+	return newClientTunnelWebSocket(ctx, addr, false, nil, (&net.Dialer{}).DialContext, nil)
+}
